@@ -97,17 +97,20 @@ def _data_specs(rng, kind, K, D, F, N, E):
     if kind in models.COMPLEX_OBS:
         specs['obs'] = {'kind': 'cclusters', 'shape': lead + [N, D], 'K': K,
                         'seed': seed, 'layout': layout,
-                        'spread': float(_choice(rng, [0.5, 1.0, 2.0]))}
+                        'spread': float(_choice(rng, [0.5, 1.0, 2.0])),
+                        'dynamic_range': float(_choice(rng, [0, 0, 0, 6, 12]))}
     else:
         specs['obs'] = {'kind': 'rclusters', 'shape': lead + [N, D], 'K': K,
                         'seed': seed, 'layout': layout,
                         'sep': float(_choice(rng, [0.5, 2.0, 4.0])),
-                        'scale': float(_choice(rng, [1.0, 1.0, 1.0, 1e-2, 30.0]))}
+                        'scale': float(_choice(rng, [1.0, 1.0, 1.0, 1e-2, 30.0])),
+                        'order': _choice(rng, ['shuffled', 'shuffled', 'sorted'])}
     if kind == 'gcacgmm':
         specs['emb'] = {'kind': 'rclusters', 'shape': lead + [N, E], 'K': K,
                         'seed': int(rng.randint(2 ** 31)), 'layout': 'C',
                         'sep': float(_choice(rng, [0.5, 2.0])),
-                        'scale': float(_choice(rng, [1.0, 1.0, 1e-2, 30.0]))}
+                        'scale': float(_choice(rng, [1.0, 1.0, 1e-2, 30.0])),
+                        'order': _choice(rng, ['shuffled', 'shuffled', 'sorted'])}
     specs['init'] = {'kind': _choice(rng, ['affiliation', 'affiliation',
                                            'affiliation_onehotish']),
                      'shape': lead + [K, N],
@@ -183,6 +186,9 @@ def generate(run_seed, tier='quick'):
     N = 4 * K * max(D, E if kind == 'gcacgmm' else 0) + int(rng.randint(0, 30))
     if rng.randint(12) == 0:
         N += int(rng.randint(150, 500))     # size-dependent code paths
+    if kind in ('gmm', 'gcacgmm') and rng.randint(40) == 0:
+        N = int(rng.randint(4200, 7000)) if kind == 'gmm' else \
+            int(rng.randint(4200, 7000)) // max(F, 1)
     specs = _data_specs(rng, kind, K, D, F, N, E)
     max_it = 50 if thorough else 30
     n = int(rng.randint(1, max_it + 1)) if rng.randint(3) else int(rng.randint(1, 9))
